@@ -134,8 +134,9 @@ def run(conf, tier, seed, replay=None):
                     known_hits.append((hit, sig))
                     continue
                 nfail += 1
-                if sighist[sig] <= 3 and len(violations) < 12:
-                    path = vlib.write_replay(pid, tier, seed, nfail, {
+                # at least one replay per signature class, at most 3 per class / 12 in all beyond that
+                if sighist[sig] == 1 or (sighist[sig] <= 3 and len(violations) < 12):
+                    path = vlib.write_replay(pid, ("replayed-" if replay else "") + tier, seed, nfail, {
                         "property": pid, "tier": tier, "seed": int(seed), "go_index": gi,
                         "harness": g["pkg"] + ":" + g["test"], "trace_spec": tr["module"],
                         "signature": sig, "first_rejected_event_index": fl["fail_index"],
@@ -145,6 +146,15 @@ def run(conf, tier, seed, replay=None):
                     violations.append((sig, path))
             for sg, c in sorted(sighist.items()):
                 log("  rejected x%d: %s" % (c, sg))
+            # ---- binding self-test (DESIGN.md 8): an accepted segment with ONE observed value corrupted must be rejected
+            if not replay and not os.environ.get("VERIF_NO_SELFTEST"):
+                st = vlib.binding_selftest(sc, g.get("family", fam), tr["module"], tr["cfg"], out, v,
+                                           keys=g.get("selftest_keys") or conf.get("selftest_keys"), seed=int(seed))
+                cov.setdefault("binding_selftest", []).append(st)
+                if st.get("status") == "not-rejected":
+                    raise MachineryError("binding self-test: corrupted observation %s was ACCEPTED by %s - the trace spec does not bind it"
+                                         % (st.get("corrupted"), tr["module"]))
+                log("  binding self-test: %s" % st)
     # ---------------- verdict
     wall = time.time() - t0
     seen = set()
